@@ -55,8 +55,13 @@ func c17Request() *pbsubstreamsrpc.Request {
 	nmods := sym.Param("MODULES", 2)
 	maxInputs := sym.Param("INPUTS", 1)
 	req := &pbsubstreamsrpc.Request{}
-	req.StartBlockNum = sym.I64("start")
-	req.StopBlockNum = sym.U64("stop")
+	if focus == 0 {
+		req.StartBlockNum = sym.I64("start")
+		req.StopBlockNum = sym.U64("stop")
+	} else {
+		// the numeric dimensions are explored by FOCUS=0 (and by C12)
+		req.StartBlockNum = 5
+	}
 	req.ProductionMode = sym.Choice("production", 2) == 1
 	mods := &pbsubstreams.Modules{}
 
@@ -92,9 +97,13 @@ func c17Request() *pbsubstreamsrpc.Request {
 			}
 		}
 		if focus == 1 {
-			n := sym.Choice("ninputs", maxInputs+1)
-			for j := 0; j < n; j++ {
-				m.Inputs = append(m.Inputs, c17Input())
+			if i == 0 && nmods > 1 {
+				m.Inputs = []*pbsubstreams.Module_Input{c17Source()}
+			} else {
+				n := sym.Choice("ninputs", maxInputs+1)
+				for j := 0; j < n; j++ {
+					m.Inputs = append(m.Inputs, c17Input())
+				}
 			}
 		}
 		if focus == 2 {
@@ -109,9 +118,6 @@ func c17Request() *pbsubstreamsrpc.Request {
 					bf.Query = &pbsubstreams.Module_BlockFilter_QueryFromParams{QueryFromParams: &pbsubstreams.Module_QueryFromParams{}}
 				}
 				m.BlockFilter = bf
-			}
-			if sym.Choice("extra-input", 2) == 1 {
-				m.Inputs = append(m.Inputs, c17Input())
 			}
 		}
 		mods.Modules = append(mods.Modules, m)
